@@ -179,7 +179,6 @@ func execFn(f []string) vlib.Res {
 			or = fmt.Sprintf("FAIL sig=authority.Cache/get/%s want=%q got=%q", reason, want, impl)
 		}
 		return vlib.Res{Impl: impl, Oracle: or, Tags: "nt"}
-	case "mc x":
 	}
 	switch f[0] {
 	case "mc":
